@@ -56,7 +56,7 @@ def check_z3_backend(repo: Repo, rep: Report) -> None:
             ns = _lenient(ns)
         # in this world z3 terms are opaque tags / objects and Python constants are themselves
         for nm in ("z3.is_expr", "z3.is_bool", "z3.is_ast"):
-            ns.setdefault(nm, lambda x: isinstance(x, (Tag, Obj)))
+            ns[nm] = lambda x: isinstance(x, (Tag, Obj))
         ns.update(extra)
         # the configuration object as a module global would see it (only the time limit matters to a backend)
         conf = Obj(["Config"], solver_timeout=state.get("timeout"), name="config")
@@ -127,6 +127,46 @@ def check_z3_backend(repo: Repo, rep: Report) -> None:
                         f"after add_constraint([c0,c1]); add_constraint(c2) the store holds {got!r}", addc.lineno)
     except (Undecided, Raised) as ex:
         rep.undecide("Z3M-4", str(ex))
+
+    # ---- Z3M-5: z3 functions that need a z3 term among their arguments ----------------------------
+    rep.rule("Z3M-5", "operators translated through a z3 function that rejects all-Python arguments (z3.Distinct) are decided by the translation "
+                      "itself when every operand is a constant: alldifferent over constants only (a fully given row, an empty group) neither raises nor "
+                      "changes its truth value")
+    try:
+        conv = mod.func("_convert_expr")
+
+        def distinct(*a: Any) -> Any:
+            flat = list(a[0]) if len(a) == 1 and isinstance(a[0], (list, tuple)) else list(a)
+            if not any(isinstance(x, (Tag, Obj)) for x in flat):
+                raise Raised("Z3Exception('At least one of the arguments must be a Z3 expression')")  # what z3.Distinct does
+            return Tag("distinct:" + ",".join(x.name if isinstance(x, Tag) else repr(x) for x in flat))
+
+        bad5 = None
+        for consts, want in (([1, 2, 3], True), ([1, 1], False), ([2, 5, 2], False), ([], True), ([7], True)):
+            ev, genv = world({"z3.Distinct": distinct})
+            e = Obj(["BoolExpr", "Expr"], op=Tag("Op.ALLDIFF"), operands=list(consts), name="alldiff")
+            try:
+                r = fde.FunctionValue(conv, ev, genv)(e, {})
+            except Raised as ex:
+                bad5 = f"alldifferent{tuple(consts)} (constants only) makes the translation raise {ex}"
+                break
+            if isinstance(r, bool) and r is not want:
+                bad5 = f"alldifferent{tuple(consts)} (constants only) is translated to {r!r}; pairwise distinctness of these constants is {want!r}"
+                break
+            if not isinstance(r, bool):
+                raise Undecided(f"alldifferent{tuple(consts)} is translated to {r!r}, whose meaning this rule cannot read")
+        # with a variable among the operands the z3 function is used as before
+        ev, genv = world({"z3.Distinct": distinct})
+        e = Obj(["BoolExpr", "Expr"], op=Tag("Op.ALLDIFF"), operands=[mkvar("IntVar", 0, 0, 3), 1, 1], name="alldiff")
+        r = fde.FunctionValue(conv, ev, genv)(e, {0: Tag("x0")})
+        if bad5 is None and not (isinstance(r, Tag) and r.name.startswith("distinct:") and "x0" in r.name):
+            bad5 = f"alldifferent(x, 1, 1) is translated to {r!r}, not to z3.Distinct over all three operands"
+        if bad5:
+            rep.finding("Z3M-5", Z3_FILE, "_convert_expr", "constant-only alldifferent", bad5, conv.lineno)
+        else:
+            rep.ok("Z3M-5", "alldifferent over constants only (5 lists) is decided without z3.Distinct; with a variable among the operands z3.Distinct gets all of them")
+    except (Undecided, Raised) as ex:
+        rep.undecide("Z3M-5", str(ex))
 
     # ---- Z3M-1: bounds ----------------------------------------------------------------------
     bad = None
